@@ -283,4 +283,8 @@ example : dropEnv (builderRun Buffer.init exWs).redactableBytes = [0x0A, 0x3F, 0
 
 example : EndsRune ([0x61, 0xE2, 0x80] ++ [0xC3, 0xA9]) := Or.inr ⟨_, [0xC3, 0xA9], rfl, by decide⟩
 
+/-- The hypothesis of the partial theorems, read on the code's own test: a payload "ends in a
+complete character" exactly when `InternalEscapeBytes`' tail test (`DecodeLastRune`) passes on it. -/
+theorem endsRune_iff_tail_test (p : List Byte) : EndsRune p ↔ tailBad p = false := (tailBad_false_iff p).symm
+
 end Redact
